@@ -511,6 +511,84 @@ def check_facade(case, col, derived):
         iso2.close()
 
 
+DEEP_LEAVES = ['packages', 'pkg', 'abcdef', 'ABCDEFGH', 'sevench', 'Mixed.Dir', 'a-rather-long-directory-name-x']
+
+
+def check_facade_deep(case, col):
+    """Directories of one name at the eighth level of 2-4 different parents, all through the Rock Ridge facade: the library
+    relocates them into one directory under identifiers of its own making.  A file added inside each of them through its
+    facade path must be found there, and nowhere else, with its own bytes - live and after a write and reopen."""
+    import pycdlib
+    level = case['level']
+    n = 2 + case['deep'] % 3
+    leaf = DEEP_LEAVES[(case['deep'] // 3) % len(DEEP_LEAVES)]
+    pre = 'C18/d/rr/deep'
+    shim.reset(0)
+    iso = pycdlib.PyCdlib()
+    iso.new(interchange_level=level, rock_ridge='1.09')
+    fac = iso.get_rock_ridge_facade()
+    want = {}
+    try:
+        for k in range(n):
+            path = ''
+            for comp in ('top%d' % k, 'd2', 'd3', 'd4', 'd5', 'd6', 'd7', leaf):
+                path += '/' + comp
+                fac.add_directory(path, 0o040555)
+            c = ('deep-%d-' % k).encode() * (3 + k)
+            fac.add_fp(io.BytesIO(c), len(c), path + '/f%d' % k, 0o100444)
+            want[path + '/f%d' % k] = c
+    except Exception as e:
+        if exc_signature(e).endswith('outside-repo'):
+            raise
+        col.fail('%s/build/%s' % (pre, exc_signature(e)), 'd', 'building %d like-named directories at the eighth level (and a file in each) through the Rock Ridge facade raised %s: %s'
+                 % (n, type(e).__name__, str(e)[:160]), case)
+        iso.close()
+        return
+    col.bump('facade-deep-cases')
+
+    def verify(f, stage):
+        for p, c in sorted(want.items()):
+            try:
+                o = io.BytesIO()
+                f.get_file_from_iso_fp(o, p)
+                if o.getvalue() != c:
+                    col.fail('%s/%s/other-entry-read' % (pre, stage), 'd', 'the facade path of the file in the %s-th like-named directory reads another file\'s bytes (%d directories, leaf %r, level %d)'
+                             % (p[4:5], n, leaf, level), case)
+                    return False
+            except Exception as e:
+                if exc_signature(e).endswith('outside-repo'):
+                    raise
+                col.fail('%s/%s/%s' % (pre, stage, exc_signature(e)), 'd', 'reading %r through the Rock Ridge facade raised %s: %s' % (p[-30:], type(e).__name__, str(e)[:120]), case)
+                return False
+            dirp = p.rsplit('/', 1)[0]
+            try:
+                kids = [ch.rock_ridge.name() for ch in f.list_children(dirp) if ch is not None and ch.rock_ridge is not None and ch.rock_ridge.name() not in (b'.', b'..', b'')]
+            except Exception as e:
+                if exc_signature(e).endswith('outside-repo'):
+                    raise
+                col.fail('%s/%s/list/%s' % (pre, stage, exc_signature(e)), 'd', 'listing a like-named directory raised %s: %s' % (type(e).__name__, str(e)[:120]), case)
+                return False
+            if kids != [p.rsplit('/', 1)[1].encode()]:
+                col.fail('%s/%s/wrong-children' % (pre, stage), 'd', 'the like-named directory %r lists %r, one file %r was added to it' % (dirp[-20:], kids[:4], p.rsplit('/', 1)[1]), case)
+                return False
+        return True
+    if verify(fac, 'live'):
+        try:
+            out = io.BytesIO()
+            iso.write_fp(out)
+            iso2 = pycdlib.PyCdlib()
+            iso2.open_fp(out)
+        except Exception as e:
+            if exc_signature(e).endswith('outside-repo'):
+                raise
+            col.fail('%s/write-reopen/%s' % (pre, exc_signature(e)), 'd', 'write / reopen raised %s: %s' % (type(e).__name__, str(e)[:120]), case)
+            iso.close()
+            return
+        verify(iso2.get_rock_ridge_facade(), 'reopened')
+        iso2.close()
+    iso.close()
+
+
 def run_case(case, col, record=True):
     level = case['level']
     entries = case['entries']
@@ -532,6 +610,8 @@ def run_case(case, col, record=True):
     derived = check_mangle(case, col)
     check_real_add(case, col, derived)
     check_facade(case, col, derived)
+    if case.get('deep') and case['facade'] == 'rr':
+        check_facade_deep(case, col)
 
 
 # ------------------------------------------------------------------------------------
@@ -605,7 +685,8 @@ def case_strategy(draw):
         name = draw(st.one_of(nasty_name, nasty_name, legal_source(level, k)))
         entries.append([name, kind])
     return {'level': level, 'facade': draw(st.sampled_from(['rr', 'rr', 'joliet', 'udf'])), 'entries': entries,
-            'rm': draw(st.integers(0, 5)), 'via_facade': draw(st.booleans())}
+            'rm': draw(st.integers(0, 5)), 'via_facade': draw(st.booleans()),
+            'deep': draw(st.sampled_from([0] * 15 + list(range(1, 22))))}
 
 
 # ------------------------------------------------------------------------------------
